@@ -7,7 +7,7 @@ cd "$(dirname "$0")/.."
 wt=/tmp/wts_${seed}_${pid}_$$
 git -C /repo worktree add -q --detach $wt HEAD || exit 9
 trap 'git -C /repo worktree remove --force '$wt' >/dev/null 2>&1; rm -rf /tmp/verif_out_$(basename '$wt')' EXIT
-git -C $wt apply "$PWD/seeded/$seed/patch.diff" || { echo "APPLY_FAIL $seed"; exit 9; }
+git -C $wt apply "$PWD/${SEED_ROOT:-seeded}/$seed/patch.diff" || { echo "APPLY_FAIL $seed"; exit 9; }
 s=$(date +%s)
 VERIF_REPO=$wt ./check $pid $tier > /tmp/seedlog_${seed}_${pid}.txt 2>&1; rc=$?
 e=$(date +%s)
